@@ -382,6 +382,11 @@ def load_findings():
     return json.load(open(p))
 
 
+def load_findings_for(pid):
+    f = load_findings()
+    return {'known': [k for k in f.get('known', []) if k.get('property') == pid], 'fixed': f.get('fixed', [])}
+
+
 class Check:
     """One run of one property's check."""
     def __init__(self, pid, tier):
